@@ -12,6 +12,9 @@
 //	repr:  every session class with inputs in the representations the API
 //	       accepts: text through IOArg.Parse and *big.Int values of any sign
 //	       and magnitude (repr.go); `replay <file>` re-runs one such case.
+//	Every mode but conn constructs the circuit VALUE of each case along a
+//	planned route (routes.go: exact / zero / stale Stats, parsed from bytes,
+//	parsed then edited, after AssignLevels); op prefix `c02 rt <route> <Stats>`.
 //	conn:  sessions whose byte volume crosses the p2p.Conn buffer sizes
 //	       (64 KiB write buffer, 1 MiB read buffer) with every OT, over a
 //	       fragmenting / delaying transport (conn.go, transport.go); compared
@@ -153,6 +156,8 @@ func run(args []string, real bool) int {
 			c = hxlib.GenParityCircuit(r, gopts.N0+8, gopts.N1)
 		}
 		widths := splitOutputs(r, c)
+		// construction route of the circuit value (routes.go), by case index
+		c, route := applyRoute(c, routeNames[i%len(routeNames)], routeRng(uint64(cf.Seed)^0x11, i), o)
 		n0 := int(c.Inputs[0].Type.Bits)
 		n1 := int(c.Inputs[1].Type.Bits)
 		nin := n0 + n1
@@ -193,8 +198,8 @@ func run(args []string, real bool) int {
 				}
 			}
 		}
-		op := fmt.Sprintf("c02 %s %s %s %d %d %s %s %s", otName, hxlib.Hex(tape), hxlib.CircLine(c), n0, n1,
-			intsString(widths), hxlib.BitsString(x), hxlib.BitsString(y))
+		op := routeOp(fmt.Sprintf("c02 %s %s %s %d %d %s %s %s", otName, hxlib.Hex(tape), hxlib.CircLine(c), n0, n1,
+			intsString(widths), hxlib.BitsString(x), hxlib.BitsString(y)), route, c)
 
 		d := hxlib.NewDuplex(r.Fork())
 		var gOT, eOT ot.OT
@@ -221,13 +226,13 @@ func run(args []string, real bool) int {
 		switch {
 		case res.Stalled:
 			sb.WriteString("stalled")
-			o.Fail("c02-stalled", map[string]any{"case": i, "ot": otName, "op": op})
+			o.Fail("c02-stalled", map[string]any{"case": i, "ot": otName, "route": route, "op": op})
 		case res.GPanic != nil || res.EPanic != nil:
 			sb.WriteString("panic")
-			o.Fail("c02-panic", map[string]any{"case": i, "ot": otName, "op": op, "g": fmt.Sprint(res.GPanic), "e": fmt.Sprint(res.EPanic)})
+			o.Fail("c02-panic", map[string]any{"case": i, "ot": otName, "route": route, "op": op, "g": fmt.Sprint(res.GPanic), "e": fmt.Sprint(res.EPanic)})
 		case res.GErr != nil || res.EErr != nil:
 			sb.WriteString("error")
-			o.Fail("c02-error", map[string]any{"case": i, "ot": otName, "op": op, "g": fmt.Sprint(res.GErr), "e": fmt.Sprint(res.EErr)})
+			o.Fail("c02-error", map[string]any{"case": i, "ot": otName, "route": route, "op": op, "g": fmt.Sprint(res.GErr), "e": fmt.Sprint(res.EErr)})
 		default:
 			if !real {
 				fmt.Fprintf(&sb, "ge=%s;eg=%s;", hxlib.Hex(d.AB.Rec), hxlib.Hex(d.BA.Rec))
@@ -245,6 +250,7 @@ func run(args []string, real bool) int {
 		o.Op(op, sb.String())
 		o.Count("sessions")
 		o.Count("ot_" + otName)
+		countRoute(o, "run", route, "random", otName, c)
 		o.Count(fmt.Sprintf("outputs_%d", minI(len(widths), 4)))
 		if n0 > 64 || n1 > 64 {
 			o.Count("wide_input")
@@ -343,7 +349,8 @@ func compiled(args []string) int {
 			continue
 		}
 		pi := i % len(circs)
-		c := circs[pi]
+		// a NEW circuit value per case, constructed along the case's route
+		c, route := applyRoute(circs[pi], routeNames[(i/3)%len(routeNames)], routeRng(uint64(cf.Seed)^0x22, i), o)
 		n0 := int(c.Inputs[0].Type.Bits)
 		n1 := int(c.Inputs[1].Type.Bits)
 		x := make([]bool, n0)
@@ -364,8 +371,8 @@ func compiled(args []string) int {
 		}
 		tape := r.Bytes(32 + 16*(1+n0+n1))
 		otName := ots[i%len(ots)]
-		op := fmt.Sprintf("c02 %s %s %s %d %d %s %s %s", otName, hxlib.Hex(tape), hxlib.CircLine(c), n0, n1,
-			intsString(widths), hxlib.BitsString(x), hxlib.BitsString(y))
+		op := routeOp(fmt.Sprintf("c02 %s %s %s %d %d %s %s %s", otName, hxlib.Hex(tape), hxlib.CircLine(c), n0, n1,
+			intsString(widths), hxlib.BitsString(x), hxlib.BitsString(y)), route, c)
 		d := hxlib.NewDuplex(r.Fork())
 		gr := r.Fork()
 		res := hxlib.RunSession(c, bitsToBig(x), bitsToBig(y), mkOT(otName, gr), mkOT(otName, r.Fork()),
@@ -375,13 +382,13 @@ func compiled(args []string) int {
 		switch {
 		case res.Stalled:
 			sb.WriteString("stalled")
-			o.Fail("c02-stalled", map[string]any{"case": i, "program": pi, "ot": otName})
+			o.Fail("c02-stalled", map[string]any{"case": i, "program": pi, "route": route, "op": clipS(op, 6000), "ot": otName})
 		case res.GPanic != nil || res.EPanic != nil:
 			sb.WriteString("panic")
-			o.Fail("c02-panic", map[string]any{"case": i, "program": pi, "g": fmt.Sprint(res.GPanic), "e": fmt.Sprint(res.EPanic)})
+			o.Fail("c02-panic", map[string]any{"case": i, "program": pi, "route": route, "op": clipS(op, 6000), "g": fmt.Sprint(res.GPanic), "e": fmt.Sprint(res.EPanic)})
 		case res.GErr != nil || res.EErr != nil:
 			sb.WriteString("error")
-			o.Fail("c02-error", map[string]any{"case": i, "program": pi, "g": fmt.Sprint(res.GErr), "e": fmt.Sprint(res.EErr)})
+			o.Fail("c02-error", map[string]any{"case": i, "program": pi, "route": route, "op": clipS(op, 6000), "g": fmt.Sprint(res.GErr), "e": fmt.Sprint(res.EErr)})
 		default:
 			fmt.Fprintf(&sb, "g=%s;e=%s", hxlib.BigsString(res.GRes), hxlib.BigsString(res.ERes))
 			want, err := c.Compute(computeInputs(c, append(append([]bool(nil), x...), y...)))
@@ -395,6 +402,7 @@ func compiled(args []string) int {
 		}
 		o.Op(op, sb.String())
 		o.Count("sessions_compiled")
+		countRoute(o, "compiled", route, "compiled", otName, c)
 		o.Count(fmt.Sprintf("program_%d", pi))
 		if i < 2 {
 			o.Sample(map[string]any{"case": i, "src": programs[pi], "ot": otName, "gates": c.NumGates})
@@ -421,6 +429,8 @@ func shared(args []string) int {
 		r := rng.Fork()
 		c := hxlib.GenCircuit(r, hxlib.GenOpts{MaxGates: 60, MaxIn: 6, Mix: mixes[round%len(mixes)]})
 		widths := splitOutputs(r, c)
+		// ONE shared circuit value per round, constructed along the round's route
+		c, route := applyRoute(c, routeNames[round%len(routeNames)], routeRng(uint64(cf.Seed)^0x33, round), o)
 		n0 := int(c.Inputs[0].Type.Bits)
 		n1 := int(c.Inputs[1].Type.Bits)
 		type sess struct {
@@ -440,8 +450,8 @@ func shared(args []string) int {
 				s.y[j] = r.Bool()
 			}
 			s.tape = r.Bytes(32 + 16*(1+n0+n1))
-			s.op = fmt.Sprintf("c02 ideal %s %s %d %d %s %s %s", hxlib.Hex(s.tape), hxlib.CircLine(c), n0, n1,
-				intsString(widths), hxlib.BitsString(s.x), hxlib.BitsString(s.y))
+			s.op = routeOp(fmt.Sprintf("c02 ideal %s %s %d %d %s %s %s", hxlib.Hex(s.tape), hxlib.CircLine(c), n0, n1,
+				intsString(widths), hxlib.BitsString(s.x), hxlib.BitsString(s.y)), route, c)
 			s.d = hxlib.NewDuplex(r.Fork())
 			ss[k] = s
 		}
@@ -493,6 +503,7 @@ func shared(args []string) int {
 			o.Count("sessions_shared")
 		}
 		o.Count("shared_rounds")
+		countRoute(o, "shared", route, "shared", "ideal", c)
 		if round < 1 {
 			o.Sample(map[string]any{"round": round, "concurrent_sessions": par, "circuit": hxlib.CircLine(c)})
 		}
